@@ -365,6 +365,116 @@ class AddEp(FnSpec):
         return out
 
 
+LOAD_REFUSED = z3.Bool("group_check_refuses_the_plugin")
+TO_EPN = z3.Function("to_ep_name", z3.StringSort(), z3.IntSort(), z3.IntSort(), z3.IntSort(), z3.StringSort())
+
+
+class PluginInfoStub(SVal):
+    def __init__(self, name, version):
+        self.name, self.version = name, version
+
+    def py_getattr(self, cx, n):
+        if n == "name":
+            return self.name
+        if n == "version":
+            return self.version
+        raise Unsupported("Plugin." + n)
+
+
+class PluginClsStub(SVal):
+    def __init__(self, info):
+        self.info = info
+
+    def py_truth(self, cx):
+        return True
+
+    def py_getattr(self, cx, n):
+        if n == "Plugin":
+            return self.info
+        raise Unsupported("plugin class attribute " + n)
+
+
+def list_post(cx, vm, old, name, pref, must_contain_new=True):
+    """the version list of `name` after adding `pref`: every old entry, the new one, nothing else, ascending; other names untouched"""
+    old_n = z3.If(old.has(name), LST(old.get_term(name)).n, 0)
+    oldl, newl = LST(old.get_term(name)), LST(vm.get_term(name))
+    cl = "a plugin group lists every registered version of a plugin"
+    i, j = z3.Int("m_i"), z3.Int("m_j")
+    out = [("lists-registered:name-present", vm.has(name), cl)]
+    sorts = cx.ghost.get("sorts")
+    if sorts:
+        w = sorts[-1][3]
+        keeps = z3.ForAll([i], z3.Implies(z3.And(0 <= i, i < old_n), z3.And(0 <= w(i), w(i) < newl.n, newl.at_term(w(i)) == oldl.at_term(i))))
+    else:
+        keeps = z3.ForAll([i], z3.Implies(z3.And(0 <= i, i < old_n), z3.Exists([j], z3.And(0 <= j, j < newl.n, newl.at_term(j) == oldl.at_term(i)))))
+    out.append(("lists-registered:keeps-every-old-entry", keeps, cl))
+    if must_contain_new:
+        out.append(("lists-registered:one-more-entry", newl.n == old_n + 1, cl))
+        out.append(("lists-registered:contains-new-entry", z3.Exists([j], z3.And(0 <= j, j < newl.n, newl.at_term(j) == pref.t)), cl))
+    out.append(("lists-registered:nothing-else", z3.ForAll([j], z3.Implies(z3.And(0 <= j, j < newl.n), z3.Or(newl.at_term(j) == pref.t, z3.Exists([i], z3.And(0 <= i, i < old_n, oldl.at_term(i) == newl.at_term(j)))))), cl))
+    out.append(("ascending", ascending(cx, vm.get_term(name), "post"), "... in ascending order"))
+    k = z3.String("k_other")
+    out.append(("other-names-untouched", z3.ForAll([k], z3.Implies(k != name, z3.And(vm.has(k) == old.has(k), vm.get_term(k) == old.get_term(k)))), "registration of one name leaves the other names' lists unchanged"))
+    return out
+
+
+class ManualRegister(FnSpec):
+    """register_in_group(pgroup, ...)'s worker: registration without an entry point"""
+
+    file = "plugin/util.py"
+    qual = "register_in_group.<locals>.manual_register"
+    props = ("C16",)
+
+    def init(self):
+        self.bindings["violently"] = True
+        self.bindings["eprint"] = lambda cx, *a: None
+        self.bindings["to_ep_name"] = lambda cx, n, v: SStr(TO_EPN(n.t, *[x.t for x in v.items]))
+
+    def setup(self, cx):
+        g = group_obj(cx)
+
+        def load(cx2, epn, plugin):
+            if cx2.decide(LOAD_REFUSED):
+                cx2.py_raise("TypeError", "refused by the group's check")
+
+        g.fields["_load_plugin"] = load
+        g.fields["_ENTRY_POINTS"] = Opaque("_ENTRY_POINTS")  # manual registrations store None there; not read by versions/resolve
+        self.bindings["pgroup"] = g
+        info = PluginInfoStub(SStr.fresh("plugin_name"), STuple(tuple(SInt.fresh(f"v{i}") for i in range(3))))
+        a = A(plugin=PluginClsStub(info))
+        a.g, a.info = g, info
+        a.old_versions = g.fields["_VERSIONS"].snapshot()
+        return a
+
+    def requires(self, cx, a):
+        return [("group-invariant", versions_inv(cx, a.g, "pre"))]
+
+    def raises(self, cx, a):
+        return {"TypeError": LOAD_REFUSED}
+
+    def _ref(self, cx, a):
+        created = cx.ghost.get("created_refs", [])
+        return created[0] if len(created) == 1 else None
+
+    def on_raise(self, cx, a, exc):
+        pref = self._ref(cx, a)
+        if pref is None:
+            return [("creates-one-reference", z3.BoolVal(False), "registers exactly one reference")]
+        # whatever becomes of the refused plugin's own entry: what was registered before stays listed, in order
+        return [(n, g, "a refused registration loses no registered version: " + c) for n, g, c in list_post(cx, a.g.fields["_VERSIONS"], a.old_versions, a.info.name.t, pref, must_contain_new=False)]
+
+    def ensures(self, cx, a, res):
+        pref = self._ref(cx, a)
+        if pref is None:
+            return [("creates-one-reference", z3.BoolVal(False), "registers exactly one reference")]
+        gk, nk, vk = key_terms(pref, cx)
+        out = [("new-ref-key", z3.And(gk == a.g.fields["gname"].t, nk == a.info.name.t, *[v == x.t for v, x in zip(vk, a.info.version.items)]), "the registered reference is (group, name, version) of the plugin's inner Plugin class")]
+        out += list_post(cx, a.g.fields["_VERSIONS"], a.old_versions, a.info.name.t, pref)
+        out.append(("invariant-preserved", versions_inv(cx, a.g, "post"), "group invariant re-established"))
+        out.append(("returns-the-plugin", z3.BoolVal(res is a.plugin), "usable as a decorator"))
+        return out
+
+
 class Versions(FnSpec):
     file = "plugin/interface.py"
     qual = "PluginGroup.versions"
@@ -583,7 +693,7 @@ def build(reg):
         return PluginCls(cid)
 
     reg.method_bindings[("PluginGroupForGet", "_get_unsafe")] = get_unsafe
-    specs = [EqSpec(), GeSpec(), SupportsSpec(), HashSpec(), GtFromGe(), LeFromGe(), LtFromGe(), AddEp(), Versions(), Resolve(), GroupGet()]
+    specs = [EqSpec(), GeSpec(), SupportsSpec(), HashSpec(), GtFromGe(), LeFromGe(), LtFromGe(), AddEp(), ManualRegister(), Versions(), Resolve(), GroupGet()]
     for s in specs + [FromEpName(), HasNamespace()]:
         reg.add(s)
     from . import plugmeta
